@@ -9,7 +9,7 @@ import numpy as np
 from vlib import sigfile
 
 WRITERS = ("invert_freq", "apply_channel_mask", "downsample", "extract_samps", "extract_chans", "extract_bands", "subband", "remove_zerodm",
-           "requantize", "block_to_file", "ts_to_tim", "fs_to_spec")
+           "requantize", "block_to_file", "ts_to_tim", "fs_to_spec", "extract_chans_b2", "extract_bands_b2")
 N, NCH = 24, 8
 
 
@@ -23,7 +23,9 @@ def make_input(d, nbits=8, seed=0):
     return p, X
 
 
-OUTPUT_NAMES = {"extract_chans": ["oc_chan0001.tim", "oc_chan0005.tim"], "extract_bands": ["ob_sub00.fil", "ob_sub01.fil"], "ts_to_tim": ["out.tim"], "fs_to_spec": ["out.spec"]}
+OUTPUT_NAMES = {"extract_chans": ["oc_chan0001.tim", "oc_chan0005.tim"], "extract_bands": ["ob_sub00.fil", "ob_sub01.fil"], "ts_to_tim": ["out.tim"], "fs_to_spec": ["out.spec"],
+                "extract_chans_b2": ["oc_chan0001.tim", "oc_chan0005.tim", "oc_chan0006.tim", "oc_chan0002.tim", "oc_chan0003.tim"],
+                "extract_bands_b2": ["ob_sub00.fil", "ob_sub01.fil", "ob_sub02.fil", "ob_sub03.fil"]}
 
 
 def precreate_outputs(writer, d):
@@ -56,6 +58,10 @@ def run_writer(writer, d, gulp, nbits=8, seed=0, preexisting=False):
         return list(fil.extract_chans([1, 5], os.path.join(d, "oc"), **kw))
     if writer == "extract_bands":
         return list(fil.extract_bands(0, 8, 4, os.path.join(d, "ob"), **kw))
+    if writer == "extract_chans_b2":   # more products than the batch size: several batches of output files
+        return list(fil.extract_chans([1, 5, 6, 2, 3], os.path.join(d, "oc"), batch_size=2, **kw))
+    if writer == "extract_bands_b2":
+        return list(fil.extract_bands(0, 8, 2, os.path.join(d, "ob"), batch_size=2, **kw))
     if writer == "subband":
         return [fil.subband(5.0, 2, out, **kw)]
     if writer == "remove_zerodm":
